@@ -52,8 +52,10 @@ func (s *sessionMetadatasState) mergeSessions(sessions []*api.SessionMetadatas) 
 	return nil
 }
 func (s *sessionMetadatasState) dump(event *api.StateBroadcastEvent) {
-	sessions := s.All()
-	for _, session := range sessions {
+	// a snapshot carries removed entries too, or a node that missed a removal would never learn of it
+	s.mu.Lock()
+	defer s.mu.Unlock()
+	for _, session := range s.sessions {
 		session := session // do not alias the loop variable
 		event.SessionMetadatas = append(event.SessionMetadatas, &session)
 	}
